@@ -421,7 +421,8 @@ def types(a, env=None, func=False):
                         if ts[0] in (Integer, PublicInteger, SecretInteger) and ts[
                             1
                         ] in (Integer, PublicInteger, SecretInteger):
-                            t = max(ts)
+                            # The result is as secret as the condition and both branches.
+                            t = AbstractInteger.shape(max([t_v] + ts).shape())
                         else:
                             t = TypeErrorRoot(
                                 "branches must have the same integer type"
@@ -430,7 +431,8 @@ def types(a, env=None, func=False):
                         if ts[0] in (Integer, PublicInteger, SecretInteger) and ts[
                             1
                         ] in (Integer, PublicInteger, SecretInteger):
-                            t = max(ts)
+                            # The result is as secret as the condition and both branches.
+                            t = AbstractInteger.shape(max([t_v] + ts).shape())
                         else:
                             t = TypeErrorRoot(
                                 "branches must have the same integer type"
@@ -439,7 +441,8 @@ def types(a, env=None, func=False):
                         if ts[0] in (Integer, PublicInteger, SecretInteger) and ts[
                             1
                         ] in (Integer, PublicInteger, SecretInteger):
-                            t = max(ts)
+                            # The result is as secret as the condition and both branches.
+                            t = AbstractInteger.shape(max([t_v] + ts).shape())
                         else:
                             t = TypeErrorRoot(
                                 "branches must have the same integer type"
